@@ -28,6 +28,15 @@ fails=$(grep "^FAILED\|^ERROR" "$D/tests_with.log" | awk "{print \$2}" | sort)
 allow="test_cbcoordchk test_cbcoordchk3 test_PSD_consistent test_transfer_orbit_cla test_era test_replace_basic_cs test_replace_basic_cs_2 test_uset2bulk test_wtrspline_rings test_newmark_nonlinear2 test_newmark_nonlinear3 test_solveunc_cd_as_force test_sparse_write test_area test_psd2time test_ksingle"
 newfail=""
 for f in $fails; do t=${f##*::}; case " $allow " in *" $t "*) ;; *) newfail="$newfail $f";; esac; done
+# test_cbcheck_determinate is flaky at the pinned commit itself (~10 %, ARPACK start vector; DESIGN 7.5):
+# it counts as a new failure only if it also fails 4 times in a row on its own
+case "$newfail" in *test_cbcheck_determinate*)
+  for i in 1 2 3 4; do
+    if ( cd "$C" && /venv/bin/python -m pytest -q -p no:cacheprovider pyyeti/tests/test_cb.py -k cbcheck_determinate > /dev/null 2>&1 ); then
+      newfail=$(echo "$newfail" | sed 's#[^ ]*test_cbcheck_determinate##'); echo "(flaky test_cbcheck_determinate passed on re-run $i)" >> "$D/tests_with.log"; break
+    fi
+  done;;
+esac
 summary=$(tail -1 "$D/tests_with.log")
 /venv/bin/python - "$D" "$ID" "$rc0" "$rc1" "$newfail" "$summary" <<'PY'
 import json, sys, os
